@@ -130,6 +130,9 @@ type c18Case struct {
 	// Globals: names (without $) bound by WithVariables / --arg to the string "G:<name>"; visible in the main
 	// program and in every module, unless a data import of the same file binds the name again
 	Globals []string `json:"globals,omitempty"`
+	// DupGlobals: every global is given twice (WithVariables with a repeated name and value; --arg twice, plus a
+	// named argument called ARGS, which the command's own $ARGS repeats): what is visible where must not change
+	DupGlobals bool `json:"dupglobals,omitempty"`
 }
 
 func (cs *c18Case) newEnv() *c18Env {
@@ -841,11 +844,21 @@ func c18ParseOut(b []byte) ([]any, error) {
 
 func (r *c18Runner) run(src string) c18Out {
 	if r.cs.Mode == "lib" {
-		return c18RunLibGlobals(src, r.cs.Globals, gojq.WithModuleLoader(gojq.NewModuleLoader(r.libArgs())))
+		globals := r.cs.Globals
+		if r.cs.DupGlobals {
+			globals = append(append([]string{}, globals...), globals...)
+		}
+		return c18RunLibGlobals(src, globals, gojq.WithModuleLoader(gojq.NewModuleLoader(r.libArgs())))
 	}
 	args := []string{"-n", "-c"}
 	for _, g := range r.cs.Globals {
 		args = append(args, "--arg", g, "G:"+g)
+	}
+	if r.cs.DupGlobals {
+		args = append(args, "--arg", "ARGS", "named like the command's own variable")
+		for _, g := range r.cs.Globals {
+			args = append(args, "--arg", g, "G:"+g)
+		}
 	}
 	res := r.cli(append(args, src), "")
 	switch {
